@@ -11,7 +11,8 @@
 //	      through the sender cache;
 //	(iv)  R,S outside [1,n-1] are rejected by every signer, S > n/2 by the Homestead
 //	      and EIP-155 signers (EIP-155: recorded finding EIP155/high-S);
-//	(v)   hash and sender survive RLP, JSON and RLP->JSON->RLP re-encoding;
+//	(v)   hash and sender survive RLP, JSON and RLP->JSON->RLP re-encoding, also when
+//	      the decoder fills an object that held another transaction (reuse_test.go);
 //	(vi)  the same at TxPool.AddRemote and core.ApplyTransaction;
 //	plus a differential: whatever types.Sender answers must be what the reference
 //	model answers for the same nine fields under the same signer.
@@ -52,13 +53,19 @@ func TestMain(m *testing.M) {
 		"outcome:rejected", "outcome:other-address", "outcome:original-ok",
 		"consumer:pool-original-accepted", "consumer:pool-mutated", "consumer:apply-original", "consumer:apply-mutated",
 		"makesigner:builtin", "to:nil", "to:address", "vector:published", "corpus", "witness:" + keyHighS,
+		"reuse:json-into-cached", "reuse:json-into-clean", "reuse:rlp-into-cached", "reuse:json-into-fresh", "reuse:rlp-into-fresh",
+		"reuse:json-after-other-hash-cached", "reuse:json-after-other-sender-cached", "reuse:json-foreign-hash-member",
+		"reuse:holder:ptr", "reuse:holder:value", "reuse:holder:slice", "reuse:holder:struct", "reuse:into-signing-parent", "witness:" + keyReuse,
 	)
 	ev.MustHitThorough("sig:short-r-or-s", "frontier-high-s-not-judged", "reenc:json-refused-invalid-sig")
 	ev.Main(m, ev.Config{
 		Property: "C12",
 		Level:    "exploration",
 		Rule: "one evaluation = one (transaction encoding, signer) pair judged: a freshly signed transaction, one mutation of it (bit flip in the encoding, field replaced by a neighbour, " +
-			"chain id +-1, V parity, (R,n-S,V') malleation, R/S/V boundary value, V+256k wrap, protection stripped), a cross-signer or cached-sender query, or a consumer (TxPool.AddRemote, ApplyTransaction) submission. " +
+			"chain id +-1, V parity, (R,n-S,V') malleation, R/S/V boundary value, V+256k wrap, protection stripped), a cross-signer or cached-sender query, a consumer (TxPool.AddRemote, ApplyTransaction) submission, " +
+			"or one object produced by one decoding of a receiver history (TestReusedReceiver: 2-4 signed or mutated transactions are decoded in a drawn order, through RLP or JSON (repository-emitted or reference-built, with an own, a foreign or no hash member), " +
+			"2-6 (thorough 2-9) times into ONE holder - a *Transaction variable, a Transaction value, a []*Transaction of 0-3 elements, a struct with a transaction and a list - with a drawn subset of {Hash, Sender under the own or another signer, Size, MarshalJSON} observed between the decodings; " +
+			"after each decoding the object must report the fields, hash and sender of what was decoded; plus a decoding into the object a signed copy was made from). " +
 			"Keys: 64-scalar pool (small, leading-zero, near n) + drawn scalars in [2,n-1]; signers Frontier, Homestead, EIP-155 with chain ids {1,3,1337,61717561,617175611,2^31,2^62,2^63}. " +
 			"non-trivial = the mutated bytes still decode as a transaction different from the original (or a consumer/cross-signer query on a decodable transaction); distinct by hash of class-free (signer, encoding)",
 		Assumptions: []string{
@@ -67,6 +74,7 @@ func TestMain(m *testing.M) {
 			"keys are scalars in [2,n-1] (crypto.BytesToKey rejects 0 and 1); price and value are below 2^256 (hexutil.Big's documented JSON limit)",
 			"the Frontier signer's acceptance of S > n/2 is protocol-defined and not judged; no built-in network selects it (checked by TestMakeSignerBuiltin)",
 			"consumers run on a stub chain head (harness-defined blockChain for the pool, fresh state per submission for ApplyTransaction)",
+			"a receiver that was used before is a supported decoding target for both codecs (encoding/json and package rlp both document that a non-nil pointer is re-used); for RLP the hash/sender questions on an object that carries another transaction's memoised answer are skipped as recorded finding DecodeRLP/reused-receiver (fields and re-encoding are still judged there; JSON is judged in full); receiver histories are sequential (no concurrent decoding into one object); Size() is observed but not judged",
 		},
 	})
 }
